@@ -136,6 +136,67 @@ theorem amin_elem_eq [LT α] [DecidableRel (α := α) (· < ·)] (init : Option 
   simp only [amin, reduce, removeDims_eq_spec a.shape axis keep hv, Option.map_some]
   rw [reduce_elem_eq_foldl _ init a axis keep hs hv j hj]; rfl
 
+/-! ### compositions: plumbing over abstract element operations -/
+
+/-- `view::mean` = `divide(reduce_add(a, normalised axis, …), mean_divisor)`: each element is the NumPy sum of the
+    addressed elements divided by *their number* (the divisor the code computes from the shape is the count of
+    folded elements); `add`, `divn` are abstract (promotion to float and the division itself are C07's) -/
+theorem mean_eq_sum_div_count (add : α → α → α) (divn : α → Nat → α) (a : Arr α) (axis : AxisArg) (keep : Bool)
+    (hs : Pos a.shape) (hv : ValidAxes a.shape.length axis) :
+    ∃ v, mean add divn a axis keep = some v ∧ v.shape = specShape a.shape (axisSet a.shape.length axis) keep ∧
+      ∀ j, InShape j v.shape →
+        v.get j = (specReduceElem add none a (axisSet a.shape.length axis) keep j).map
+                    (fun x => divn x (addressed a.shape (axisSet a.shape.length axis) keep j).length) := by
+  cases axis with
+  | none =>
+    refine ⟨⟨specShape a.shape (axisSet a.shape.length none) keep,
+      fun j => (reduceElem add none a none keep j).map (fun x => divn x (prod a.shape))⟩, ?_, rfl, ?_⟩
+    · simp [mean, unwrapAxes, meanDivisor, reduce, removeDims_eq_spec a.shape none keep hv]
+    · intro j hj
+      have hr := reduceReads_eq_addressed a.shape hs none keep hv j hj
+      have hlen : (addressed a.shape (axisSet a.shape.length none) keep j).length = prod a.shape := by
+        simp only [reduceReads, Option.some.injEq] at hr
+        rw [← hr]; simp
+      simp only [reduce_elem_eq_foldl add none a none keep hs hv j hj, hlen]
+  | some l =>
+    obtain ⟨hv', hset⟩ := validAxes_renorm a.shape.length l hv
+    have hval := hv.1
+    have hlt : ∀ k ∈ l.map (normAxis a.shape.length), k < a.shape.length := by
+      intro k hk
+      simp only [List.mem_map] at hk
+      obtain ⟨b, hb, rfl⟩ := hk
+      exact normAxis_lt (hval b hb)
+    refine ⟨⟨specShape a.shape (axisSet a.shape.length (some l)) keep,
+      fun j => (reduceElem add none a (some ((l.map (normAxis a.shape.length)).map Int.ofNat)) keep j).map
+        (fun x => divn x (prodSel (fun k => decide (k ∈ l.map (normAxis a.shape.length))) 0 a.shape))⟩, ?_, rfl, ?_⟩
+    · simp only [mean, unwrapAxes, normalizeAxes_eq, if_pos hval, Option.map_some,
+        meanDivisor_eq_prodSel a.shape _ hv.2 hlt, reduce, removeDims_eq_spec a.shape _ keep hv', hset]
+    · intro j hj
+      have hj' : InShape j (specShape a.shape (axisSet a.shape.length
+          (some ((l.map (normAxis a.shape.length)).map Int.ofNat))) keep) := by rw [hset]; exact hj
+      simp only [reduce_elem_eq_foldl add none a _ keep hs hv' j hj', hset,
+        addressed_length a.shape hs l keep hv j hj]
+      rfl
+
+/-- `view::vector_norm` = `power(sum(power(fabs(a), ord), axis, …), 1/ord)`: the fold runs over the addressed elements
+    of the element-wise pre-processed array, then the post-processing is applied per result element -/
+theorem vector_norm_eq (add : α → α → α) (pre post : α → α) (a : Arr α) (axis : AxisArg) (keep : Bool)
+    (hs : Pos a.shape) (hv : ValidAxes a.shape.length axis) :
+    ∃ v, vectorNorm add pre post a axis keep = some v ∧
+      v.shape = specShape a.shape (axisSet a.shape.length axis) keep ∧
+      ∀ j, InShape j v.shape →
+        v.get j = (foldFirst add none ((addressed a.shape (axisSet a.shape.length axis) keep j).map
+                    (fun i => pre (a.get i)))).map post := by
+  refine ⟨⟨specShape a.shape (axisSet a.shape.length axis) keep,
+    fun j => (reduceElem add none (a.map pre) axis keep j).map post⟩, ?_, rfl, ?_⟩
+  · have := removeDims_eq_spec a.shape axis keep hv
+    simp [vectorNorm, reduce, Arr.map, this]
+  · intro j hj
+    have h := reduce_elem_eq_foldl add none (a.map pre) axis keep hs hv j hj
+    show (reduceElem add none (a.map pre) axis keep j).map post = _
+    rw [h]
+    simp [specReduceElem, Arr.map, List.map_map, Function.comp_def]
+
 /-! ### accumulate -/
 
 /-- accumulate keeps the source shape -/
